@@ -156,8 +156,18 @@ def case_ip_verify(p):
     for cell in p["cells"]:
         cell = dict(cell, step=step)
         items = _reply_items(cell)
-        rig = IpRig(seed=p.get("seed", 0))
+        rig = IpRig(seed=p.get("seed", 0), hosts=["10.0.0.1", "10.0.0.2"] if cell.get("two_hosts") else ("127.0.0.1",))
         try:
+            if cell.get("two_hosts"):
+                # two advertised addresses: the error comes from the first one reached; whoever answers at the second would be honest
+                orig_accept = rig.net.accept
+
+                def accept(att, host=None, orig_accept=orig_accept):
+                    c = orig_accept(att, host)
+                    rig.acc.verify_fault = None
+                    return c
+
+                rig.net.accept = accept
             rig.acc.handler = std_handler()
             rig.acc.http_style = cell.get("wire")
             if not (cell["err"] == "absent" and cell["state"] in ("expected", "absent") and not cell.get("force")):
@@ -447,6 +457,8 @@ def cells(tier):
                     for errpos in (["last"] if err == "absent" else ["first", "afterstate", "last"]):
                         yield ("mgmt", dict(step=step, err=err, state=state, subset=subset, errpos=errpos, style="ip" if step.startswith("ip") else "ble"))
                         if step.startswith("ip") and (tier == "thorough" or (errpos == "last" and not subset and state in ("expected", "absent"))):
+                            if "verify" in step and err == "02" and errpos == "last":  # (only an authentication error ends the retries: C10)
+                                yield ("mgmt", dict(step=step, err=err, state=state, subset=subset, errpos=errpos, style="ip", two_hosts=True))
                             for http in (400, 429, 470) if err != "absent" else ():
                                 yield ("mgmt", dict(step=step, err=err, state=state, subset=subset, errpos=errpos, style="ip", http=http))
                             from vt.ref.ipacc import HTTP_STYLES
